@@ -1,6 +1,9 @@
 (* C15 - Flatten/inflate is an exact inverse for every nested container.
-   Property theorems only; each closed by [exact] of a lemma from proofs/FlattenProofs.v / proofs/FlattenInst.v.
-   Model: model/Flatten.v (what is not modelled is listed in its header). *)
+   Property theorems only; each closed by [exact] of a lemma from proofs/FlattenProofs.v (hand model), proofs/FlattenInst.v,
+   proofs/FlattenRecInst.v, proofs/InflateInst.v (terms generated from flatten.py = hand model) or a two-line wrapper.
+   Hand model: model/Flatten.v (what is not modelled is listed in its header); generated terms: gen/FlattenGen.v,
+   gen/FlattenRecGen.v over the Python vocabulary of model/FlattenPy.v; the second half of this file restates the
+   property over the generated terms. *)
 From TS Require Import model.Base model.Flatten model.FlattenPy proofs.FlattenProofs gen.FlattenGen proofs.FlattenInst
   gen.FlattenRecGen model.FlattenGenObs proofs.InflatePieces proofs.FlattenRecInst proofs.InflateInst.
 From Coq Require Import Permutation.
